@@ -20,9 +20,11 @@ m = {"merge iterator adapter":("D5",["C11","C08"]), "MergeCompact returns":("D6"
  "writers truncate the files":("D29",["C15","C14"]), "any over-long varint":("D30",["C12"]),
  "payload was cut off":("D31",["C04","C12"]), "zero-padded end":("D32",["C04"]), "never hands the caller":("D33",["C04"]),
  "length of a decompressed record":("D34",["C09","C04"]), "checksum that means":("D35",["C09","C03"]),
- "only trusts a hit":("D36",["C03"]), "truncates its zero padding":("D37",["C20","C04"])}
+ "only trusts a hit":("D36",["C03"]), "truncates its zero padding":("D37",["C20","C04"]),
+ "cannot make progress with":("D38",["C01"]), "does not share its slices":("D39",["C17","C02","C05","C18"]),
+ "keeps only the file it is replaying":("D40",["C19","C13"])}
 # a later fix: commit that refines an earlier one has to be reverted together with it (newest first)
-also = {"D15": ["WAL sweep after a flush stays inside"], "D17": ["any over-long varint"], "D31": ["zero-padded end"], "D13": ["take the database folder itself"]}
+also = {"D15": ["WAL sweep after a flush stays inside"], "D17": ["any over-long varint"], "D31": ["zero-padded end"], "D13": ["take the database folder itself"], "D10": ["does not share its slices", "a Put that returns an error"]}
 out = os.path.join(os.path.dirname(os.path.abspath(__file__)), "revert")
 os.makedirs(out, exist_ok=True)
 for f in os.listdir(out):
